@@ -33,6 +33,7 @@ def run(rep):
     dwtchecks.analysis_2d(rep, fnd, table, calls2.records, "C01")
     dwtchecks.trace_validate_analysis(rep, "C01", rep.tier)
     stagetrace.validate_dwt1(rep, "C01", rep.tier, "DWT1DForward")
+    stagetrace.validate_dwt2(rep, "C01", rep.tier, "DWTForward")
     dwtchecks.numeric_vs_pywt(rep, "C01", rep.tier)
     rep.assumptions += [
         "TLC bounds: see coverage.tlc_runs; beyond them only the recorded executions are checked",
